@@ -89,4 +89,9 @@ PROPS = {
     "C20": dict(kinds=["utlru", "utmap"], modes=["c20"], judge="TWIN", quick=600, thorough=20000,
                 theorems=["Verif.C20_utlru", "Verif.C20_utmap", "Verif.Utlru.ttl_ms"],
                 explain="Theorems C20_utlru / C20_utmap: clear() leaves exactly the state of a newly constructed container with the same capacity and the configured TTL; checked on the implementation by twin instances (after clear vs fresh, same continuation)."),
+    "C08": dict(kinds=ALL, modes=["single", "c18"], judge="C08", quick=120, thorough=6000,
+                theorems=REFINES + ["Verif.Rec.inv_init", "Verif.Fifo.inv_init", "Verif.Rr.inv_init", "Verif.Lfu.inv_init",
+                                    "Verif.Lfuda.inv_init", "Verif.Tlru.inv_init", "Verif.Utlru.inv_init", "Verif.UtMap.inv_init",
+                                    "Verif.C15_rr_bijection", "Verif.Refines.runA", "Verif.Verified.C02_bound"],
+                explain="PARTIAL. Proved: the bookkeeping invariants of every container model hold after every history (resident keys duplicate-free, size <= capacity so the partition point never passes the end and a prune always finds a victim, rr's slot ids + free stack a permutation of 0..cap-1 so no slot is handed out twice, tlru/utlru ttl structure consistent with and sorted like the entries, ut_map list sorted) - these are the model-level reasons the C++ never dereferences end(), never erases through a stale iterator, never indexes out of range. NOT proved: memory safety of the C++ itself (libstdc++ internals, object lifetime of value_type); that part is the sanitizer correspondence: the same scripts run on the real headers under ASan+UBSan+checked iterators with an instance-counted heap-owning value type."),
 }
